@@ -79,6 +79,11 @@ func genQCfg(rc *RunCtx) QCfg {
 	case "C04":
 		// timing checks want the scan to visit every channel and memory-held messages
 		c.ScanSelCount = 20
+		if sr := NewPRNG(rc.Seed ^ 0x5e1c); sr.Chance(1, 4) {
+			// ... but not always: with fewer channels drawn per tick than there are, a channel's turn comes
+			// at random, and the lateness bounds widen accordingly (lateSlack)
+			c.ScanSelCount = sr.Pick(1, 2)
+		}
 		c.MemQueueSize = 10000
 	case "C07":
 		c.TLS = r.Chance(1, 2)
@@ -328,6 +333,9 @@ func genQOps(rc *RunCtx, c QCfg) []Op {
 		}
 		if o.Kind != "adv" && o.Kind != "stats" && o.Kind != "restart" && o.Kind != "sub" && o.Kind != "cls" && r.Chance(w.burst, 100) {
 			o.Burst = true
+		}
+		if rc.Prop == "C04" && r.Chance(1, 15) {
+			add(Op{Kind: "adv", A: -1})
 		}
 		if (rc.Prop == "C01" || rc.Prop == "ALL" || rc.Prop == "C08") && r.Chance(1, 25) {
 			add(Op{Kind: "createpub", A: int64(r.Intn(8)), B: int64(r.Intn(8)), C: int64(r.Intn(4))})
@@ -659,6 +667,11 @@ func (w *qWorld) exec(op Op) {
 	case "adv":
 		w.settleIfBurst()
 		d := ms(op.A)
+		if op.A < 0 {
+			// long enough for everything that is in flight now to be overdue by the end, whatever its timeout
+			d = ms(w.cfg.MaxMsgTimeoutMs) + w.lateSlack() + 50*time.Millisecond
+			w.rc.Probe("advance_until_everything_is_overdue")
+		}
 		if op.B > 0 {
 			// to 2 ms before the next output-buffer tick of the selected consumer
 			if co := w.liveConsumer(op.B); co != nil {
